@@ -3,6 +3,7 @@ package props
 import (
 	"bytes"
 	"encoding/binary"
+	"fmt"
 
 	"github.com/pion/rtp"
 
@@ -15,6 +16,7 @@ func init() {
 		Rule: "one case = one value of the codec's domain (encode, layout comparison, decode into fresh and used receivers) or one decoder input (bytes, length 0..size+2, trailing bytes, prior receiver state); complete domains are swept inside an execution and counted as cases; non-trivial = the codec accepted the value/input",
 		Assumptions: []string{
 			"AbsCaptureTime 64-bit fields are drawn from 8-byte strings over {00,01,7F,80,FF} (5^8 each), one field over the full grid at a time against 12 values of the other",
+			"AbsCaptureTime decode sequences: every sequence of 2-4 inputs from 8 (8 / 16 / 18 / 15 / 7 bytes and nil, equal and different timestamps and offsets) into one receiver; the caller keeps a copy of the value after each decode and every kept value is re-read after every later decode",
 			"bit layouts are taken from RFC 6464, the transport-wide-cc draft, and the WebRTC playout-delay / abs-send-time / abs-capture-time specifications",
 		},
 		Scenarios: []mc.Scenario{
@@ -25,6 +27,7 @@ func init() {
 			{Name: "abssendtime-all-2^24", Tiers: "qt", ShardDepth: 1, Run: c17AbsSendTime},
 			{Name: "abscapturetime-grid", Tiers: "qt", ShardDepth: 2, Run: c17AbsCaptureTime},
 			{Name: "short-and-long-inputs", Tiers: "qt", ShardDepth: 2, Run: c17Lengths},
+			{Name: "abscapturetime-decode-sequences", Tiers: "qt", ShardDepth: 2, Run: c17CaptureSequences},
 		},
 	})
 }
@@ -377,4 +380,68 @@ func c17Lengths(c *mc.Ctx) {
 		c.Check(err != nil, "short-input-accepted", "codec %d accepted %d bytes (needs %d)", codec, n, size)
 		c.Outcome("rejected")
 	}
+}
+
+var c17SeqInputs = [][]byte{
+	{1, 2, 3, 4, 5, 6, 7, 8},
+	{8, 7, 6, 5, 4, 3, 2, 1, 0xFF, 0xFF, 0xFF, 0xF6, 0, 0, 0, 0},
+	{1, 2, 3, 4, 5, 6, 7, 8, 0, 0, 0, 1, 0x40, 0, 0, 0},
+	{8, 7, 6, 5, 4, 3, 2, 1, 0, 0, 0, 1, 0x40, 0, 0, 0},
+	{9, 9, 9, 9, 9, 9, 9, 9, 0x80, 0, 0, 0, 0, 0, 0, 0, 0xAA, 0xBB},
+	{9, 9, 9, 9, 9, 9, 9, 9, 1, 2, 3, 4, 5, 6, 7},
+	{1, 2, 3, 4, 5, 6, 7},
+	nil,
+}
+
+// c17CaptureSequences: every sequence of up to 4 decodes into one AbsCaptureTime receiver; the
+// caller keeps a copy of the value after each decode (as one storing the extension per packet
+// does), and every kept value must still be what its own input encodes after the later decodes.
+func c17CaptureSequences(c *mc.Ctx) {
+	depth := 2 + c.Pick(3)
+	seq := make([]int, depth)
+	for i := range seq {
+		seq[i] = c.Pick(len(c17SeqInputs))
+	}
+	if c.Verbose() {
+		c.Notef("AbsCaptureTime decode sequence %v", seq)
+	}
+	type kept struct {
+		v     rtp.AbsCaptureTimeExtension
+		in    []byte
+		step  int
+		hasTS bool
+	}
+	var keep []kept
+	var d rtp.AbsCaptureTimeExtension
+	for i, k := range seq {
+		in := c17SeqInputs[k]
+		err := d.Unmarshal(clone(in))
+		c.Ops(1)
+		if (err == nil) != (len(in) >= 8) {
+			c.Failf("abscapturetime-length", "step %d of %v: Unmarshal of %d bytes returned %v", i, seq, len(in), err)
+		}
+		if err == nil {
+			keep = append(keep, kept{v: d, in: in, step: i})
+		}
+		for _, kv := range keep {
+			wantTS := binary.BigEndian.Uint64(kv.in)
+			var wantOff *int64
+			if len(kv.in) >= 16 {
+				o := int64(binary.BigEndian.Uint64(kv.in[8:]))
+				wantOff = &o
+			}
+			got := kv.v.EstimatedCaptureClockOffset
+			if kv.v.Timestamp != wantTS || (got == nil) != (wantOff == nil) || (got != nil && *got != *wantOff) {
+				clause := "abscapturetime-decode-offset"
+				if kv.step != i {
+					clause = "abscapturetime-earlier-value-changed"
+				}
+				c.Failf(clause, "sequence %v: the value decoded at step %d from %s reads timestamp %#x offset %v after step %d (want %#x, %v)", seq, kv.step, hx(kv.in), kv.v.Timestamp, fmtOff(got), i, wantTS, fmtOff(wantOff))
+			}
+		}
+	}
+	if len(keep) >= 2 {
+		c.NonTrivial()
+	}
+	c.Outcome(fmt.Sprintf("kept=%d", len(keep)))
 }
